@@ -532,11 +532,11 @@ package gorm
 //@   do opened = opened + ite(isnil(result1), 1, 0)
 
 //@ func (*DB).Begin
-//@   tags C04
+//@   tags C04 C05
 //@   assumes handle-has-a-context: db.Statement != nil && db.Statement.Context != nil
 //@   modifies *db.cacheStore, ghost opened
 //@   ensures at-most-one-driver-begin: opened <= old(opened) + 1 && opened >= old(opened)
-//@   ensures no-transaction-without-success: result.Error != nil ==> opened == old(opened)
+//@   ensures no-transaction-without-success: result.Error != nil ==> opened == old(opened) [C04,C05]
 //@   ensures failure-is-reported: opened == old(opened) ==> result.Error != nil
 //@   ensures context-kept: result.Statement.Context == db.Statement.Context [C18]
 //@ iface TxBeginner.BeginTx(recv, ctx, opts)
@@ -1030,6 +1030,15 @@ package gorm
 //@   in gorm.(*Association).buildCondition
 //@   min-sites 1
 //@   assert values-of-the-rendered-text: arg0 == joinStmt.Vars [C01]
+
+//@ # ---------- C03: the value kinds AddVar binds as a whole keep their own case ----------
+//@ # A []byte is bound as one value whatever its length: in the generic slice branch an empty one would be rendered as
+//@ # the text (NULL) and a NOT NULL blob column could not store an empty value.
+//@ site byte-slices-are-bound-as-one-value
+//@   match typeassert []byte
+//@   in gorm.(*Statement).AddVar
+//@   min-sites 1
+//@   assert own-case: true [C03,C01]
 
 //@ # ---------- C18/C04: a nested block is set up and undone on the caller's handle ----------
 //@ # SAVEPOINT and ROLLBACK TO SAVEPOINT of a nested Transaction carry the same context (and run on the same
